@@ -313,6 +313,12 @@ QaLink(r, id) ==
 
 InBitmapDef(r) == r.bmst \in {"WAITING", "COUNTING"}
 
+(* WF: a class-31 NUMERIC (031000 031001 031002 ...) met while 201 / 202 / 207 is in force - directly, as a replication
+   factor, or as the owner of a marker operator - is the region where FM-94 is silent and pybufrkit makes a choice.
+   A behaviour that gets there ends with the pseudo error "OutsideWF": it is counted, never replayed, never judged. *)
+WidthOpsInForce(r) == r.dw # 0 \/ r.ds # 0 \/ r.bsrY # 0
+OutsideWF(r, id) == XX(id) = 31 /\ InB(id) /\ Kind(id) = "num" /\ WidthOpsInForce(r)
+
 (* an element descriptor proper; id/w/sc/ref are given so that markers can reuse this *)
 (* the element that gives an attribute its meaning: 031021 while associated fields are in force,
    the first 008023 after 224000, the first 008024 after 225000 *)
@@ -345,6 +351,7 @@ Element ==
     /\ LET r1 == Pre(reg, Ins, out) IN
        IF r1.bmst = "ERR" THEN Fail("PyBufrKitError")
        ELSE IF ~InB(Ins.id) THEN Fail("UnknownDescriptor")
+       ELSE IF OutsideWF(r1, Ins.id) THEN Fail("OutsideWF")
        ELSE ElemField(r1, Ins.id, IdStr(Ins.id), Kind(Ins.id), BWidth(Ins.id), BScale(Ins.id),
                       FromInt(BRef(Ins.id)), TRUE, 0, 0, pc + 1)
 
@@ -380,6 +387,7 @@ Delayed ==
            fid == P[pc + 1].id
        IN IF r1.bmst = "ERR" THEN Fail("PyBufrKitError")
           ELSE IF ~InB(fid) THEN Fail("UnknownDescriptor")
+          ELSE IF OutsideWF(r1, fid) THEN Fail("OutsideWF")
           ELSE LET w == BWidth(fid)
                    top == IF w >= 8 THEN Fmax ELSE 1
                    choices == IF Mode # "produce" THEN {<<>>}
@@ -477,7 +485,8 @@ OperatorMarker ==
                 w0 == IF OpId = 225255 THEN BWidth(oid) + 1 ELSE BWidth(oid)
                 ref0 == IF OpId = 225255 THEN WNeg(FromBits(<<1>> \o Zeros(BWidth(oid)))) ELSE FromInt(BRef(oid))
                 mean0 == IF OpId = 224255 THEN r1.m8023 ELSE IF OpId = 225255 THEN r1.m8024 ELSE 0
-            IN ElemField(r2, oid, lab, Kind(oid), w0, BScale(oid), ref0, FALSE, owner, mean0, pc + 1)
+            IN IF OutsideWF(r2, oid) THEN Fail("OutsideWF") ELSE
+               ElemField(r2, oid, lab, Kind(oid), w0, BScale(oid), ref0, FALSE, owner, mean0, pc + 1)
 
 OperatorUnknown ==
     /\ Normal /\ Ins.k = "O"
